@@ -438,7 +438,7 @@ def evalLife (p : Pending) (glob : Oracle) (obsToks : List String) : String :=
   let mlog := body.fs.sock.log ++ [Obs.misc 30 [UInt8.ofNat (Life.live fin)], Obs.misc 31 [0]]
   let ilog := (obsToks.filter (· != "end")).filterMap parseObs
   let badTok := obsToks.filter (fun t => t != "end" && (parseObs t).isNone)
-  let keepR (o : Obs) : Bool := match o with | .del => false | .dc => false | .hp => false | .rcf => false | .rr => false | .bw _ => false | _ => true
+  let keepR (o : Obs) : Bool := match o with | .del => false | .dc => false | .hp => false | .rcf => false | .rr => false | .bw _ => false | .ev _ => false | _ => true
   let pm := mergeW (mlog.filter keepR)
   let pi := mergeW (ilog.filter keepR)
   -- for handler kinds without a model (the slot handler) only the predicate is evaluated
